@@ -13,7 +13,7 @@ BOUNDS = {"quick": "<= 3 parameters, each a scalar, a list of 1-3 values or a ne
           "thorough": "<= 4 parameters"}
 OUTSIDE = "deeper nesting, duplicate values, non str/int values"
 CAP_S = {"quick": 600, "thorough": 3600}
-POOL = [0, "b", 10, "a", 2]
+POOL = [0, 0.0, "b", 10, "a"]       # 0 and 0.0 are equal but render differently ("0", "0.0")
 SCALARS = [0, "b", 10, False]      # falsy scalars (0, False) are legitimate parameter values
 
 
